@@ -3222,6 +3222,11 @@ impl Connection {
 
     /// Handle a change in the local address, i.e. an active migration
     pub fn local_address_changed(&mut self) {
+        if self.state.is_closed() {
+            // Nothing to migrate. In particular a drained connection must not emit further
+            // endpoint events: the endpoint has already forgotten it.
+            return;
+        }
         self.update_rem_cid();
         self.ping();
     }
